@@ -18,9 +18,10 @@ Record cstate := mkC {
 }.
 
 Inductive rres :=
+| RZero                      (* (0, nil) for a non-empty buffer: the pinned read path after a failed frame *)
 | RData (bs : bytes)         (* (n > 0 or len(b) = 0, nil) *)
 | RTimeout                   (* (0, timeout error): connection stays open *)
-| RErr (code : N)            (* any other error; the socket is closed. 1 = EOF, 2 = decrypt failure *)
+| RErr (code : N)            (* any other error. 1 = EOF, 2 = decrypt failure (socket closed by the read path), 3 = read on the closed socket *)
 | RBlocked.                  (* the schedule is exhausted: the Read would block *)
 
 Definition frame_need (rcv : bytes) : option nat :=
@@ -64,6 +65,10 @@ Definition ev_size (e : sockev) : nat := match e with SockData bs => S (length b
 Definition evs_size (evs : list sockev) : nat := fold_right (fun e a => (ev_size e + a)%nat) 0%nat evs.
 
 Section WithOpen.
+  (** [sticky]: after a frame failed to decrypt nothing more is delivered (buffered bytes are dropped
+      and the error is returned).  [false] is the read path before commit "stop reading ... after a
+      frame failed to decrypt": it closed the socket but answered (0, nil) and kept the buffer. *)
+  Variable sticky : bool.
   Variable open : bytes -> bytes -> bytes -> bytes -> bytes -> option bytes.
   Variable key : bytes.
 
@@ -85,15 +90,19 @@ Section WithOpen.
         | _, _ => (RData out, st', evs)
         end
       | None =>
-        match read_frame (S (evs_size evs)) (received st) evs with
-        | (FFrame fr rcv', _, evs') =>
+        (* once the read path has closed the socket, socket reads fail; complete frames that are
+           still buffered (non-sticky variant only) are served without touching the socket *)
+        match (if closed st then read_frame 1 (received st) [] else read_frame (S (evs_size evs)) (received st) evs) with
+        | (FFrame fr rcv', _, evs0) =>
+          let evs' := if closed st then evs else evs0 in
           match decrypt open key (rctr st) fr with
           | DOk pt c _ => conn_read f (mkC rcv' (Some pt) c (closed st)) bsize evs'
-          | DErr _ c => (RErr 2, mkC rcv' None c true, evs')
+          | DErr _ c => if sticky then (RErr 2, mkC [] None c true, evs') else (RZero, mkC rcv' None c true, evs')
           end
         | (FTimeout, rcv', evs') => (RTimeout, mkC rcv' None (rctr st) (closed st), evs')
         | (FEOF, rcv', evs') => (RErr 1, mkC rcv' None (rctr st) true, evs')
-        | (FBlocked, rcv', evs') => (RBlocked, mkC rcv' None (rctr st) (closed st), evs')
+        | (FBlocked, rcv', evs') =>
+          if closed st then ((if sticky then RErr 3 else RZero), st, evs) else (RBlocked, mkC rcv' None (rctr st) (closed st), evs')
         end
       end
     end.
@@ -105,9 +114,8 @@ Section WithOpen.
     | b :: bs =>
       let '(r, st', evs') := conn_read (4 + length (received st) + evs_size evs) st b evs in
       match r with
-      | RData _ | RTimeout =>
-        let '(rs, st'', evs'') := run_reads st' bs evs' in (r :: rs, st'', evs'')
-      | _ => ([r], st', evs')
+      | RBlocked | RErr 1 => ([r], st', evs')       (* the caller stops at end-of-stream / when it would block *)
+      | _ => let '(rs, st'', evs'') := run_reads st' bs evs' in (r :: rs, st'', evs'')
       end
     end.
 End WithOpen.
